@@ -105,6 +105,8 @@ void ResolutionProof::endChain(CRef conclusion)
       assert(!current_chain.isEmpty());
       assert(current_chain.ref == 0);
       current_chain.type = clause_type::CLA_LEARNT;
+      // A new refutation replaces the previous one, which may rest on assertions that have been popped since
+      if (conclusion == CRef_Undef) { clause_to_proof_der.erase(conclusion); }
       assert( clause_to_proof_der.find( conclusion ) == clause_to_proof_der.end( ) );
       // Create association between res and it's derivation chain
       clause_to_proof_der.emplace(conclusion, std::move(current_chain));
